@@ -98,6 +98,7 @@ class Run:
             if o: enums[name] = o
         I = Interp([path] + extra_paths, enums=enums, solver_timeout=self.timeout_ms)
         I.repo_root = REPO
+        I.error_variants = enum_order_from_source('Error', 'tough/src/error.rs') or []
         I.run_ctx = self
         # integrity: every `fn ` line of the dump must have become a function
         nfn = sum(1 for pp in [path] + extra_paths for l in open(pp) if l.startswith('fn '))
@@ -312,6 +313,7 @@ class Run:
             'solver_seconds': {'z3': round(self.solver_s + sum(I.solver_s for I in self.interps.values()), 2), 'cvc5': round(getattr(self, 'solver_cvc5_s', 0.0), 2)},
             'slowest_queries': [{'name': o['name'], 's': o['s'], 'retried': bool(o.get('retried'))} for o in sorted(self.obl, key=lambda o: -o['s'])[:5]],
             'query_cap_s': self.timeout_ms / 1000.0,
+            'loop_bound': {'max_entries_of_one_block_per_activation_seen': max([I.stats.get('max_block_visits', 0) for I in self.interps.values()] + [0]), 'cut_at': max([I.max_block_visits for I in self.interps.values()] + [0])},
             'feasibility_queries': sum(I.nqueries for I in self.interps.values()),
             'cvc5_cross_checked': self.cvc5_checked, 'cvc5_disagreements': self.cvc5_disagree,
             'replayed_scenarios': self.replayed, 'differential': self.differential,
